@@ -121,8 +121,24 @@ def read_init_lists(repo):
         if not (re.search(r"if\s*\(\s*%s\s*\)\s*\{\s*XMLPlatformUtils::fgMemoryManager->deallocate\(\s*%s\s*\)" % (field, field), b)
                 and re.search(r"%s\s*=\s*XMLString::replicate\(\s*\w+\s*,\s*XMLPlatformUtils::fgMemoryManager\s*\)" % field, b)):
             raise ValueError("XMLMsgLoader::%s no longer has the modelled shape" % fn)
+    # grammar ownership: shape of GrammarResolver::putGrammar / orphanGrammar / cacheGrammarFromParse the model follows, and which owner
+    # orphanGrammar asks first (pool first = code as it was; bucket first = repaired order)
+    gr = strip_comments(open(os.path.join(repo, "src/xercesc/validators/common/GrammarResolver.cpp")).read())
+    putb = body_of(gr, r"void\s+GrammarResolver::putGrammar\s*\(")
+    orb = body_of(gr, r"Grammar\s*\*\s*GrammarResolver::orphanGrammar\s*\(")
+    cgb = body_of(gr, r"void\s+GrammarResolver::cacheGrammarFromParse\s*\(")
+    if not re.search(r"if\s*\(\s*!fCacheGrammar\s*\|\|\s*!fGrammarPool->cacheGrammar\(\s*grammarToAdopt\s*\)\s*\)\s*\{\s*fGrammarBucket->put\(", putb):
+        raise ValueError("GrammarResolver::putGrammar no longer has the modelled shape")
+    if "reset()" not in cgb or "fCacheGrammar" not in cgb:
+        raise ValueError("GrammarResolver::cacheGrammarFromParse no longer resets the bucket")
+    ip = orb.find("fGrammarPool->orphanGrammar")
+    ib2 = orb.find("fGrammarBucket->orphanKey")
+    # both branches (caching / not caching) must take the grammar OUT of the bucket (orphanKey), not merely look it up
+    # (not fatal for the run: the exploration is still carried out so that it can produce a failing input; the check reports the broken
+    #  tie itself only when the exploration finds nothing)
+    orphan_shape_ok = not (ip < 0 or orb.count("fGrammarBucket->orphanKey") < 2 or "fGrammarBucket->get" in orb)
     return dict(inits=inits, terms=terms, created=created, zeroed=zeroed, deleted=deleted, dom_reset=dom_reset,
-                msg_set=msg_set, msg_reset=msg_reset)
+                msg_set=msg_set, msg_reset=msg_reset, orphan_bucket_first=(0 <= ib2 < ip), orphan_shape_ok=orphan_shape_ok)
 
 
 def coq_strlist(l):
@@ -158,8 +174,11 @@ def generate(repo, gendir):
           "Definition msgloader_set : list string := %s.\n"
           "(** XMLMsgLoader::setX(0) calls of Terminate (strings released) *)\n"
           "Definition msgloader_reset : list string := %s.\n"
+          "(** does GrammarResolver::orphanGrammar look into the resolver's own bucket before it asks the pool ? *)\n"
+          "Definition orphan_bucket_first : bool := %s.\n"
           % (coq_strlist(il["inits"]), coq_strlist(il["terms"]), coq_strlist(il["created"]), coq_strlist(il["deleted"]),
-             coq_strlist(il["zeroed"]), "true" if il["dom_reset"] else "false", coq_strlist(il["msg_set"]), coq_strlist(il["msg_reset"])))
+             coq_strlist(il["zeroed"]), "true" if il["dom_reset"] else "false", coq_strlist(il["msg_set"]), coq_strlist(il["msg_reset"]),
+             "true" if il["orphan_bucket_first"] else "false"))
     V.write_if_changed(os.path.join(gendir, "GenC18Init.v"), v2)
     return dict(heap=heap, init=il)
 
